@@ -259,6 +259,55 @@ func main() {
 		return nil
 	}))
 
+	// 3b. a reset hook for process-wide state inside internal/corazawaf (a new
+	// file in an existing package; nothing in the repository refers to it)
+	resetSrc := `package corazawaf
+
+// VerifResetGlobals restores the process-wide state of this package to its
+// initial value, so that every simulated run starts from the state of a fresh
+// process (added by the build overlay; simulation only).
+func VerifResetGlobals() {
+	transformationIDsLock.Lock()
+	transformationIDToName = []string{""}
+	transformationNameToID = map[string]int{"": 0}
+	transformationIDsLock.Unlock()
+	wafIDCounter.Store(0)
+}
+`
+	rs := filepath.Join(gen, "internal", "corazawaf", "zz_verif_reset.go")
+	must(os.MkdirAll(filepath.Dir(rs), 0o755))
+	must(os.WriteFile(rs, []byte(resetSrc), 0o644))
+	overlay[filepath.Join(*repo, "internal", "corazawaf", "zz_verif_reset.go")] = rs
+
+	memoReset := `//go:build !tinygo && !coraza.no_memoize
+
+package memoize
+
+import (
+	sync "github.com/corazawaf/coraza/v3/verifrt/simsync"
+	"github.com/corazawaf/coraza/v3/verifrt/singleflight"
+)
+
+// VerifResetGlobals gives the process-wide cache the state of a fresh process
+// (added by the build overlay; simulation only).
+func VerifResetGlobals() {
+	cache = sync.Map{}
+	group = singleflight.Group{}
+}
+`
+	memoResetNoop := `//go:build tinygo || coraza.no_memoize
+
+package memoize
+
+func VerifResetGlobals() {}
+`
+	for name, src := range map[string]string{"zz_verif_reset.go": memoReset, "zz_verif_reset_noop.go": memoResetNoop} {
+		f := filepath.Join(gen, "internal", "memoize", name)
+		must(os.MkdirAll(filepath.Dir(f), 0o755))
+		must(os.WriteFile(f, []byte(src), 0o644))
+		overlay[filepath.Join(*repo, "internal", "memoize", name)] = f
+	}
+
 	// 4. alternative go.mod / go.sum (adds porcupine)
 	mod, err := os.ReadFile(filepath.Join(*repo, "go.mod"))
 	must(err)
